@@ -1124,7 +1124,8 @@ impl ExpressionPredicate {
             (Value::Null, Value::Null) => true,
             (Value::Bool(a), Value::Bool(b)) => a == b,
             (Value::Int64(a), Value::Int64(b)) => a == b,
-            (Value::Float64(a), Value::Float64(b)) => (a - b).abs() < f64::EPSILON,
+            // `a == b` first: the difference of two equal infinities is NaN
+            (Value::Float64(a), Value::Float64(b)) => a == b || (a - b).abs() < f64::EPSILON,
             (Value::String(a), Value::String(b)) => a == b,
             (Value::Int64(a), Value::Float64(b)) | (Value::Float64(b), Value::Int64(a)) => {
                 (*a as f64 - b).abs() < f64::EPSILON
@@ -1136,36 +1137,12 @@ impl ExpressionPredicate {
     fn compare_values(&self, left: &Value, right: &Value) -> Option<i32> {
         match (left, right) {
             (Value::Int64(a), Value::Int64(b)) => Some(a.cmp(b) as i32),
-            (Value::Float64(a), Value::Float64(b)) => {
-                if a < b {
-                    Some(-1)
-                } else if a > b {
-                    Some(1)
-                } else {
-                    Some(0)
-                }
-            }
+            // NaN is not ordered with respect to anything (partial_cmp is None):
+            // reporting it as equal made `NaN <= x` and `NaN >= x` true
+            (Value::Float64(a), Value::Float64(b)) => a.partial_cmp(b).map(|o| o as i32),
             (Value::String(a), Value::String(b)) => Some(a.cmp(b) as i32),
-            (Value::Int64(a), Value::Float64(b)) => {
-                let af = *a as f64;
-                if af < *b {
-                    Some(-1)
-                } else if af > *b {
-                    Some(1)
-                } else {
-                    Some(0)
-                }
-            }
-            (Value::Float64(a), Value::Int64(b)) => {
-                let bf = *b as f64;
-                if *a < bf {
-                    Some(-1)
-                } else if *a > bf {
-                    Some(1)
-                } else {
-                    Some(0)
-                }
-            }
+            (Value::Int64(a), Value::Float64(b)) => (*a as f64).partial_cmp(b).map(|o| o as i32),
+            (Value::Float64(a), Value::Int64(b)) => a.partial_cmp(&(*b as f64)).map(|o| o as i32),
             _ => None,
         }
     }
